@@ -40,6 +40,7 @@ import (
 	"fmt"
 	"io"
 	"net"
+	"sort"
 	"strconv"
 	"strings"
 	"sync"
@@ -88,6 +89,17 @@ type dg struct {
 	data []byte
 }
 
+// sideConn: a further stream conn on its own virtual descriptor; its peer sends a pattern of its own
+type sideConn struct {
+	k    int
+	fd   int
+	v    *vsys.VFD
+	c    *nbio.Conn
+	sent []byte
+	got  []byte
+	live bool
+}
+
 type sess struct {
 	cfg
 	g    *nbio.Engine
@@ -132,6 +144,10 @@ type sess struct {
 	ctlSeen int
 	eof     bool
 	rerr    bool
+
+	// side conns: further stream conns of the same engine (fd table / dispatch: who gets whose bytes)
+	side      map[int]*sideConn
+	sideByPtr map[*nbio.Conn]*sideConn
 
 	intrTotal  int
 	closedSeen bool
@@ -270,6 +286,10 @@ func newSess(c cfg) (*sess, error) {
 	s.g = g
 	g.OnOpen(func(nc *nbio.Conn) {
 		s.mu.Lock()
+		if s.sideByPtr[nc] != nil {
+			s.mu.Unlock()
+			return
+		}
 		id := s.nextID
 		s.nextID++
 		s.ids[nc] = id
@@ -359,6 +379,17 @@ func (s *sess) onData(nc *nbio.Conn, data []byte) {
 	id, ok := s.ids[nc]
 	if !ok {
 		id = -1
+	}
+	if sc := s.sideByPtr[nc]; sc != nil {
+		// a side conn gets exactly the next bytes ITS peer sent, whatever the other conns of the engine do
+		sc.got = append(sc.got, data...)
+		n := len(sc.got)
+		if !sc.live {
+			s.oracle = append(s.oracle, fmt.Sprintf("c02-delivery conn s%d: %d bytes delivered after it was closed", sc.k, len(data)))
+		} else if n > len(sc.sent) || string(sc.got[n-len(data):]) != string(sc.sent[n-len(data):n]) {
+			s.oracle = append(s.oracle, fmt.Sprintf("c02-delivery conn s%d: bytes delivered to a conn that the peer did not send to it (chunk of %d at offset %d)", sc.k, len(data), n-len(data)))
+		}
+		return
 	}
 	s.dels = append(s.dels, fmt.Sprintf("%d:%d:%016x", id, len(data), lp.Fnv(data)))
 	if s.typ != "udp" {
@@ -753,6 +784,85 @@ func atomicHook(p *int32, delta, v int32) {
 	}
 }
 
+// ---------------------------------------------------------------- side conns
+
+// side conns run where the poller itself reads (the table lookup precedes the sync/async branch; the task bookkeeping
+// of this harness is built for one conn)
+func (s *sess) sideOK() bool { return s.typ != "udp" && !s.isAsync() }
+
+func (s *sess) sideAdd(k int, fd int, v *vsys.VFD) (*sideConn, error) {
+	typ := nbio.ConnTypeTCP
+	if s.typ == "unix" {
+		typ = nbio.ConnTypeUnix
+	}
+	sc := &sideConn{k: k, fd: fd, v: v, c: nbio.VerifNewConn(fd, typ), live: true}
+	s.mu.Lock()
+	if s.side == nil {
+		s.side, s.sideByPtr = map[int]*sideConn{}, map[*nbio.Conn]*sideConn{}
+	}
+	s.side[k] = sc
+	s.sideByPtr[sc.c] = sc
+	s.mu.Unlock()
+	_, err := s.g.AddConn(sc.c)
+	return sc, err
+}
+
+// sidePump delivers readable events for the given descriptors — one batch per poller, all the descriptors of a poller
+// in ONE epoll_wait result — until their receive queues are empty (bounded); stale: extra events put in front
+func (s *sess) sidePump(e *lp.Exec, fds []int, stale []syscall.EpollEvent) {
+	for round := 0; round < 4096; round++ {
+		batches := map[int][]syscall.EpollEvent{}
+		for _, ev := range stale {
+			ep := s.g.VerifEpfd(int(ev.Fd) % s.np)
+			batches[ep] = append(batches[ep], ev)
+		}
+		stale = nil
+		for _, fd := range fds {
+			v := vsys.Get(fd)
+			if v == nil {
+				continue
+			}
+			if rq, _, _, _ := v.ReadSide(); rq > 0 {
+				ep := s.g.VerifEpfd(fd % s.np)
+				batches[ep] = append(batches[ep], syscall.EpollEvent{Fd: int32(fd), Events: syscall.EPOLLIN})
+			}
+		}
+		if len(batches) == 0 {
+			return
+		}
+		for ep, evs := range batches {
+			if !vsys.InjectTimeout(ep, evs, 60*time.Second) {
+				s.stuck(e, "poller did not finish the event batch (side conns)")
+				return
+			}
+		}
+		s.runDef(e)
+	}
+	s.stuck(e, "side conns: input still queued after 4096 event rounds")
+}
+
+func (s *sess) sideState(e *lp.Exec, what string) {
+	s.mu.Lock()
+	var ks []int
+	for k := range s.side {
+		ks = append(ks, k)
+	}
+	sort.Ints(ks)
+	var parts []string
+	for _, k := range ks {
+		sc := s.side[k]
+		parts = append(parts, fmt.Sprintf("%d:%d:%d:%016x:%d", k, len(sc.sent), len(sc.got), lp.Fnv(sc.got), b2i(sc.live)))
+	}
+	orc := s.oracle
+	s.oracle = nil
+	s.mu.Unlock()
+	e.P("X %s side=[%s]", what, strings.Join(parts, ","))
+	for _, o := range orc {
+		i := strings.Index(o, " ")
+		e.Oracle(o[:i], "%s", o[i+1:])
+	}
+}
+
 func (s *sess) close(e *lp.Exec) {
 	// end of case: stop pausing, release whatever is parked, close, stop
 	curMu.Lock()
@@ -822,6 +932,9 @@ func (s *sess) close(e *lp.Exec) {
 	case <-time.After(5 * time.Second):
 	}
 	vsys.Forget(s.fd)
+	for _, sc := range s.side {
+		vsys.Forget(sc.fd)
+	}
 }
 
 // ---------------------------------------------------------------- executor
@@ -1056,6 +1169,113 @@ func exec(e *lp.Exec) {
 			}
 			s.state(e, "drain")
 			key.WriteString("D,")
+		case "xadd":
+			// xadd <k>: a further stream conn
+			k, err := strconv.Atoi(f[len(f)-1])
+			if len(f) != 2 || err != nil || !s.sideOK() || s.side[k] != nil {
+				e.P("bad-op")
+				continue
+			}
+			fd, v := vsys.NewVFD()
+			if _, err := s.sideAdd(k, fd, v); err != nil {
+				s.stuck(e, "AddConn of a side conn failed: "+err.Error())
+			}
+			s.sideState(e, "xadd")
+			key.WriteString("xa,")
+		case "xsend":
+			// xsend <k1> <p1> [<k2> <p2> [<k3> <p3>]]: the peers send; the events of one poller come in one batch
+			if len(f) < 3 || len(f)%2 != 1 || !s.sideOK() {
+				e.P("bad-op")
+				continue
+			}
+			var fds []int
+			ok := true
+			for i := 1; i < len(f); i += 2 {
+				k, _ := strconv.Atoi(f[i])
+				sc := s.side[k]
+				if sc == nil || !sc.live {
+					ok = false
+				}
+			}
+			if !ok {
+				e.P("bad-op")
+				continue
+			}
+			for i := 1; i < len(f); i += 2 {
+				k, _ := strconv.Atoi(f[i])
+				sc := s.side[k]
+				b := lp.Payload(f[i+1])
+				s.mu.Lock()
+				sc.sent = append(sc.sent, b...)
+				s.mu.Unlock()
+				sc.v.Push(b)
+				fds = append(fds, sc.fd)
+			}
+			s.sidePump(e, fds, nil)
+			s.sideState(e, "xsend")
+			fmt.Fprintf(&key, "xs%d,", len(f)/2)
+			nontrivial = true
+		case "xclose":
+			k, _ := strconv.Atoi(f[len(f)-1])
+			sc := s.side[k]
+			if len(f) != 2 || !s.sideOK() || sc == nil || !sc.live {
+				e.P("bad-op")
+				continue
+			}
+			s.mu.Lock()
+			sc.live = false
+			s.mu.Unlock()
+			_ = sc.c.Close()
+			s.sideState(e, "xclose")
+			key.WriteString("xc,")
+		case "xreuse":
+			// xreuse <k> <j> <payload>: conn k is closed; a new conn j gets ITS descriptor number; the peer of j sends; the
+			// poller's batch still holds (stale) readable events that were collected for the old conn
+			if len(f) != 4 || !s.sideOK() {
+				e.P("bad-op")
+				continue
+			}
+			k, _ := strconv.Atoi(f[1])
+			j, _ := strconv.Atoi(f[2])
+			old := s.side[k]
+			if old == nil || old.live || s.side[j] != nil {
+				e.P("bad-op")
+				continue
+			}
+			// the kernel hands out the lowest free number: take descriptors until the old number comes
+			var extra []int
+			fd, v := -1, (*vsys.VFD)(nil)
+			for i := 0; i < 256; i++ {
+				nfd, nv := vsys.NewVFD()
+				if nfd == old.fd {
+					fd, v = nfd, nv
+					break
+				}
+				extra = append(extra, nfd)
+			}
+			for _, x := range extra {
+				vsys.Forget(x)
+				_ = syscall.Close(x)
+			}
+			if fd < 0 {
+				s.stuck(e, "side conns: the descriptor number of the closed conn did not come back")
+				s.sideState(e, "xreuse")
+				continue
+			}
+			sc, err := s.sideAdd(j, fd, v)
+			if err != nil {
+				s.stuck(e, "AddConn on a reused descriptor number failed: "+err.Error())
+			}
+			b := lp.Payload(f[3])
+			s.mu.Lock()
+			sc.sent = append(sc.sent, b...)
+			s.mu.Unlock()
+			sc.v.Push(b)
+			st := syscall.EpollEvent{Fd: int32(fd), Events: syscall.EPOLLIN}
+			s.sidePump(e, []int{fd}, []syscall.EpollEvent{st, st})
+			s.sideState(e, "xreuse")
+			key.WriteString("xr,")
+			nontrivial = true
 		case "key":
 			sa, ok := parseAddr(f[1])
 			if !ok {
@@ -1128,7 +1348,38 @@ func gen(g *lp.Gen) {
 				"6:00000000000000000000ffff7f000001:4000:0", "6:7f000001000000000000000000000000:4000:0"}
 		}
 		eofDone := false
+		// side conns (stream cases whose read tasks are not parked): further conns of the same engine with payload
+		// patterns of their own, events of several conns in one batch, close + descriptor number reuse + stale events
+		sideCase := typ != "udp" && !isAsync && g.Chance(1, 2)
+		sideStage, sideNext := 0, 4
+		sidePay := func(k int) string {
+			return fmt.Sprintf("@%d:%d", g.PickInt(1, rbs-1, rbs, rbs+1, 2*rbs+1, 3, 50), 40+k)
+		}
 		for i := 0; i < nops; i++ {
+			if sideCase && g.Chance(1, 2) {
+				switch sideStage {
+				case 0:
+					g.P("xadd 1")
+					g.P("xadd 2")
+				case 1:
+					g.P("xsend 1 %s 2 %s", sidePay(1), sidePay(2))
+				case 2:
+					g.P("xadd 3")
+					g.P("xsend 3 %s 1 %s 2 %s", sidePay(3), sidePay(1), sidePay(2))
+				case 3:
+					g.P("xclose %d", 1+g.Intn(3))
+				default:
+					// whichever is closed is reused, the others keep talking
+					g.P("xreuse 1 %d %s", sideNext, sidePay(sideNext))
+					g.P("xreuse 2 %d %s", sideNext+1, sidePay(sideNext+1))
+					g.P("xreuse 3 %d %s", sideNext+2, sidePay(sideNext+2))
+					g.P("xsend 1 %s", sidePay(1))
+					g.P("xsend 2 %s", sidePay(2))
+					g.P("xsend 3 %s", sidePay(3))
+					sideCase = false
+				}
+				sideStage++
+			}
 			r := g.Intn(100)
 			switch {
 			case r < 30 && !eofDone:
